@@ -15,10 +15,10 @@ META = {
     "engine": "E1 runtime scenario engine",
     "rule": (
         "seeded random histories of 2-5 runner generations (a new ServiceRunner each, or - 30 % - the same instance accepting again); each generation: a payload population (none / "
-        "sleeping and spinning coroutines / 100-200 sleeping coroutines / blocked threads / trio payloads that keep calling execute(flavour=asyncio) / 1-3 submitter threads adopting payloads "
+        "sleeping and spinning coroutines / 100-200 sleeping coroutines / 30-240 services being created by 1-3 threads / blocked threads / trio payloads that keep calling execute(flavour=asyncio) / 1-3 submitter threads adopting payloads "
         "concurrently; before a third of the shutdowns 1-2 coroutine payloads that answer their cancellation by raising or by returning a value), 0-3 concurrent accept() attempts by other runners while it runs, accept_delay "
-        "0-0.3 s, and an ending in {shutdown from an outside thread, from a thread payload, from a worker thread of a trio / asyncio payload that waits for it, two or three "
-        "concurrent shutdowns, SIGINT to the main thread, KeyboardInterrupt raised in an asyncio / thread / "
+        "0-0.3 s, and an ending in {shutdown from an outside thread, from a thread payload, from a worker thread of a trio / asyncio payload that waits for it, two to eight "
+        "concurrent shutdowns (staggered by 0-10 ms, or released by a barrier), SIGINT to the main thread, KeyboardInterrupt raised in an asyncio / thread / "
         "trio payload, Exception failure, orphaned return, BaseException failure, shutdown racing a failing "
         "payload by -30..+30 ms}; line-level delay injection (with longer delays inside stop / shutdown); kind=late_stop: six forced schedules (a shutdown() preempted inside stop() before its 1st / 2nd / 3rd close request while the runtime ends by another shutdown or by a failure, resuming between the loop's last turn and loop.close()); kind=polling: the accept loop alone under a "
         "virtual clock, uptimes from 0 to 20000 polling cycles: a shutdown request is noticed within one accept_delay. Non-trivial = history of >= 2 generations that "
@@ -36,15 +36,29 @@ ENDINGS = ["shutdown_outside", "shutdown_thread", "shutdown_double", "shutdown_t
 
 def plan(tier, seed):
     if tier == "thorough":
-        return [dict(seed=seed, shard=i, n=60) for i in range(16)] + [dict(seed=seed, shard="polling", kind="polling", n=400), dict(seed=seed, shard="late_stop", kind="late_stop")]
-    return [dict(seed=seed, shard=i, n=5) for i in range(16)] + [dict(seed=seed, shard="polling", kind="polling", n=60), dict(seed=seed, shard="late_stop", kind="late_stop")]
+        return [dict(seed=seed, shard=i, n=60) for i in range(16)] + [dict(seed=seed, shard="polling", kind="polling", n=400), dict(seed=seed, shard="late_stop", kind="late_stop"),
+                                                                   dict(seed=seed, shard="bursts", kind="bursts", n=30)]
+    return [dict(seed=seed, shard=i, n=5) for i in range(16)] + [dict(seed=seed, shard="polling", kind="polling", n=60), dict(seed=seed, shard="late_stop", kind="late_stop"),
+                                                                  dict(seed=seed, shard="bursts", kind="bursts", n=4)]
 
 
 def gen_generation(rnd, index, ending):
     # accept_delay 0: the accept loop polls without pausing (a legal, if wasteful, setting)
     gen = {"accept_delay": rnd.choice([0.01, 0.03, 0.05, 0.1, 0.3, 0, 0]), "payloads": [], "services": [], "grace": 0.15}
     script = [["wait_running", 10]]
-    population = rnd.choice(["none", "sleepers", "sleepers", "blocked", "mixed", "submitters", "cross", "many"])
+    population = rnd.choice(["none", "sleepers", "sleepers", "blocked", "mixed", "submitters", "cross", "many", "services"])
+    if population == "services":
+        # services keep being created by other threads while the accept loop polls: nothing of that may end the runner
+        sid = 0
+        for t in range(rnd.randint(1, 3)):
+            ops = []
+            for j in range(rnd.randint(30, 80)):
+                gen["services"].append({"id": "sv%d" % sid, "flavour": rnd.choice(common.FLAVOURS), "program": [["sleep", 0.005]]})
+                ops.append(["service", "sv%d" % sid])
+                if rnd.random() < 0.2:
+                    ops.append(["sleep", rnd.choice([0.0, 0.002])])
+                sid += 1
+            script.append(["thread", ops])
     if population == "many":
         # a large population of sleeping coroutines: ending the runtime must not take time per payload
         for i in range(rnd.choice([100, 150, 200])):
@@ -115,6 +129,8 @@ def gen_generation(rnd, index, ending):
         fl = "trio" if ending == "shutdown_trio_worker" else "asyncio"
         gen["payloads"].append({"id": "trigger", "flavour": fl, "program": [["shutdown_in_worker"]], "cleanup": {"kind": "none"}})
         script.append(["adopt", "trigger"])
+    elif ending == "shutdown_double" and rnd.random() < 0.5:
+        script.append(["shutdown_burst", rnd.choice([2, 4, 8, 8])])  # at the very same instant
     elif ending == "shutdown_double":
         for _ in range(rnd.choice([1, 2])):
             script.append(["thread", [["sleep", rnd.choice([0.0, 0.002, 0.01])], ["shutdown"]]])
@@ -145,7 +161,23 @@ def gen_generation(rnd, index, ending):
     return gen
 
 
+def gen_bursts(rnd, spec):
+    """Several short-lived runners, each ended by 8 shutdown() calls released at the same instant."""
+    gens = []
+    for g in range(6):
+        gen = {"accept_delay": rnd.choice([0.01, 0.02]), "services": [], "grace": 0.1,
+               "payloads": [{"id": "heart", "flavour": rnd.choice(common.COROUTINE), "program": [["beat", 0.01, None]], "when": "queued", "cleanup": {"kind": "none"}}],
+               "script": [["wait_running", 10], ["sleep", rnd.choice([0.0, 0.01, 0.03])], ["shutdown_burst", 8], ["expect_end", 8.0]],
+               "meta": {"ending": "shutdown_double", "population": "none", "second_accepts": 0}}
+        if g > 0 and rnd.random() < 0.3:
+            gen["reuse_runner"] = True
+        gens.append(gen)
+    return {"watchdog": 45, "inject": common.inject_conf(rnd, 0.3), "generations": gens, "meta": {"endings": ["shutdown_double"] * len(gens)}}
+
+
 def gen_case(rnd, spec):
+    if spec.get("kind") == "bursts":
+        return gen_bursts(rnd, spec)
     n = rnd.choice([2, 2, 3, 3, 4, 5])
     gens = []
     for g in range(n):
@@ -307,6 +339,8 @@ def judge(case, run, result):
                              % (g, ending, meta["population"], (": " + run.stacks[-1200:]) if hung else ""), None))
             break
         result.count("ending_" + ending)
+        if meta["population"] == "services":
+            result.count("endings_while_services_are_being_created")
         if meta["population"] == "many":
             result.count("endings_with_100_to_200_sleeping_coroutines")
         if gen["accept_delay"] == 0:
@@ -360,7 +394,7 @@ def run_shard(spec):
     for i in range(spec["n"]):
         if only is not None and i != only:
             continue
-        case = gen_case(core.rng(PID, spec["seed"], spec["shard"], i), dict(spec, case_index=i * 16 + spec["shard"]))
+        case = gen_case(core.rng(PID, spec["seed"], spec["shard"], i), dict(spec, case_index=i * 16 + (spec["shard"] if isinstance(spec["shard"], int) else 0)))
         problems, run = execute(case, result)
         result.case(common.sample(case, run, **{"endings": case["meta"]["endings"]}),
                     nontrivial=len(run.of("running-observed")) >= 2,
@@ -373,7 +407,7 @@ def run_shard(spec):
 
 def finish(total, tier):
     need = ["histories_completed", "polling_loops_checked", "restarts_of_the_same_runner_instance", "concurrent_accepts_rejected", "shutdown_calls_returned", "race_outcome_returned", "forced_late_stop_schedules_checked",
-            "endings_with_trio_payloads_calling_into_asyncio", "endings_with_100_to_200_sleeping_coroutines", "generations_with_accept_delay_0", "shutdowns_with_asyncio_payload_failing_on_cancellation", "shutdowns_with_trio_payload_failing_on_cancellation"]
+            "endings_with_trio_payloads_calling_into_asyncio", "endings_with_100_to_200_sleeping_coroutines", "endings_while_services_are_being_created", "generations_with_accept_delay_0", "shutdowns_with_asyncio_payload_failing_on_cancellation", "shutdowns_with_trio_payload_failing_on_cancellation"]
     need += ["ending_" + e for e in ENDINGS] + ["restarts_after_" + e for e in ENDINGS]
     for name in need:
         if not total.counters.get(name) and not total.violations:
